@@ -57,7 +57,7 @@ def run(tier, seed):
             for variant in ("between", "inflight"):
                 s2 = copy.deepcopy(sc)
                 s2["name"] = "%s@%s%d" % (sc["name"], variant[0], k)
-                s2["family"] = "%s|%s" % (sc["family"], variant)
+                s2["family"] = "%s/%s" % (sc["family"], variant)
                 s2["preserve_outcome"] = True
                 crash = ["crash", 1] if variant == "between" else ["crash", 1, "inflight"]
                 lim = dict(limits0, preamble=labels[:k] + [crash, ["restart", 1]])
@@ -67,7 +67,7 @@ def run(tier, seed):
             for k in range(1, ops[j] + 1):
                 s2 = copy.deepcopy(sc)
                 s2["name"] = "%s@m%d.%d" % (sc["name"], j, k)
-                s2["family"] = "%s|midstep" % sc["family"]
+                s2["family"] = "%s/midstep" % sc["family"]
                 s2["preserve_outcome"] = False
                 lim = dict(limits0, preamble=labels[:j] + [["arm_crash", k], lab, ["restart", 1]])
                 jobs.append((s2, None, lim)); by_name[s2["name"]] = s2
@@ -76,7 +76,7 @@ def run(tier, seed):
             for k1 in range(0, len(labels), 2):
                 s2 = copy.deepcopy(sc)
                 s2["name"] = "%s@dd%d" % (sc["name"], k1)
-                s2["family"] = "%s|double" % sc["family"]
+                s2["family"] = "%s/double" % sc["family"]
                 s2["preserve_outcome"] = False
                 lim = dict(limits0, preamble=labels[:k1] + [["crash", 1], ["restart", 1], ["crash", 1], ["restart", 1]])
                 jobs.append((s2, None, lim)); by_name[s2["name"]] = s2
